@@ -168,7 +168,11 @@ func (e *SpecEnv) eval(ex Expr) SVal {
 	case *EUnary:
 		switch n.Op {
 		case "!":
-			return SVal{V: o.Not(e.evalBool(n.X)), T: typBool}
+			saved := e.x.catGoal
+			e.x.catGoal = false
+			r := o.Not(e.evalBool(n.X))
+			e.x.catGoal = saved
+			return SVal{V: r, T: typBool}
 		case "-":
 			v := e.eval(n.X)
 			if v.C != nil {
@@ -417,9 +421,17 @@ func (e *SpecEnv) evalBinary(n *EBinary) SVal {
 	o := e.o()
 	switch n.Op {
 	case "==>":
-		return SVal{V: o.Implies(e.evalBool(n.L), e.evalBool(n.R)), T: typBool}
+		saved := e.x.catGoal
+		e.x.catGoal = false
+		l := e.evalBool(n.L)
+		e.x.catGoal = saved
+		return SVal{V: o.Implies(l, e.evalBool(n.R)), T: typBool}
 	case "<==>":
-		return SVal{V: o.Iff(e.evalBool(n.L), e.evalBool(n.R)), T: typBool}
+		saved := e.x.catGoal
+		e.x.catGoal = false
+		l, r := e.evalBool(n.L), e.evalBool(n.R)
+		e.x.catGoal = saved
+		return SVal{V: o.Iff(l, r), T: typBool}
 	case "&&":
 		return SVal{V: o.And(e.evalBool(n.L), e.evalBool(n.R)), T: typBool}
 	case "||":
@@ -684,7 +696,10 @@ func (e *SpecEnv) evalCall(n *ECall) SVal {
 		}
 		return r
 	case "ite":
+		savedCG := e.x.catGoal
+		e.x.catGoal = false
 		c := e.evalBool(n.Args[0])
+		e.x.catGoal = savedCG
 		if c.IsTrue() {
 			return arg(1)
 		}
@@ -794,6 +809,40 @@ func (e *SpecEnv) evalCall(n *ECall) SVal {
 		v := arg(1)
 		sv := e.x.seqView(e.st(), v.V)
 		return SVal{V: e.x.inLang(e.pk, pn.Name, sv), T: typBool}
+	case "decOK", "decVal":
+		// strconv.ParseUint(s, 10, 64): whether it succeeds / its value
+		v := arg(0)
+		ok, val := e.x.parseUintTerms(e.x.seqView(e.st(), v.V))
+		if name == "decOK" {
+			return SVal{V: ok, T: typBool}
+		}
+		return SVal{V: val, T: types.Typ[types.Uint64]}
+	case "decText":
+		// the canonical decimal text of an unsigned integer
+		v := arg(0)
+		return SVal{V: e.x.digitsOf(e.asInt(v, tyUint64), 10, 20, 0, true), T: typString}
+	case "submatch":
+		// submatch(pattern, seq, k): the k-th capture of the match of seq by the package's regexp variable
+		pn, ok := n.Args[0].(*EIdent)
+		if !ok {
+			sfail("submatch: first argument must name a regexp variable")
+		}
+		ri, err := e.x.w.regexInfo(e.pk, pn.Name)
+		if err != nil {
+			sfail("%v", err)
+		}
+		v := arg(1)
+		kk := arg(2)
+		if kk.C == nil {
+			sfail("submatch: capture index must be constant")
+		}
+		view := e.x.seqView(e.st(), v.V)
+		ent := e.x.submatchOf(ri, view)
+		k := int(kk.C.Int64())
+		if k < 1 || k > ri.NumCap {
+			sfail("submatch: capture %d out of range", k)
+		}
+		return SVal{V: StrVal{Arr: view.Arr, Off: o.IdxAdd(view.Off, ent.starts[k]), Len: ent.lens[k]}, T: typString}
 	case "inre":
 		// inre(NAME, seq): membership in a regexp declared in the contract file with `regex NAME = ...`
 		pn, ok := n.Args[0].(*EIdent)
